@@ -618,7 +618,31 @@ def rule_r11(ctx):
     c12.rule_r8(ctx, rid="C13.R11")
 
 
-RULES = [rule_r1, rule_r2, rule_r3, rule_r4, rule_r5, rule_r6, rule_r7, rule_r8, rule_r9, rule_r10, rule_r11]
+def rule_r12(ctx):
+    """Shared with C09.R1: a file handed to the channel is closed exactly once even when the connection is torn down between the head and the hand-over (ownership flips right after write_soon returned, never before)."""
+    from . import c09
+    c09.rule_r1(ctx, rid="C13.R12")
+
+
+def rule_r13(ctx, rid="C13.R13"):
+    ctx.r.rule(rid, "every socket the loop manages is non-blocking: dispatcher.__init__ calls setblocking(0 / False) on the socket it is given before registering it (an accepted socket does not inherit the mode; on a blocking socket the send made on behalf of a client that stopped reading blocks the worker under the output lock, or the I/O thread and with it every connection)")
+    p = ctx.p
+    f = p.func("wasyncore.dispatcher.__init__")
+    g = cfg_of(f)
+    sock = f.params[1] if len(f.params) > 1 else None
+    nb = [n for n, c in find_calls(g, lambda c: isinstance(c.func, ast.Attribute) and c.func.attr == "setblocking" and dotted(c.func.value) == sock and c.args
+                                   and isinstance(c.args[0], ast.Constant) and c.args[0].value in (0, False))]
+    reg = [n for n, c in find_calls(g, lambda c: dotted(c.func) in ("self.set_socket", "self.add_channel"))]
+    if not reg:
+        raise AnalysisError("anchor vanished: dispatcher.__init__ registering its socket")
+    for r in reg:
+        if nb and g.path(g.entry, r, avoid=nb, follow_exc=False) is None:
+            ctx.r.ok(rid, "the socket is made non-blocking before %s" % norm(r.ast)[:40], f.loc(r.ast))
+        else:
+            ctx.r.violation(rid, key_of(f, None, "socket-left-blocking"), "dispatcher.__init__ can register the socket (%s) without having called %s.setblocking(0): a connection whose peer stops reading blocks the thread that sends to it" % (norm(r.ast)[:40], sock), f.loc(r.ast))
+
+
+RULES = [rule_r1, rule_r2, rule_r3, rule_r4, rule_r5, rule_r6, rule_r7, rule_r8, rule_r9, rule_r10, rule_r11, rule_r12, rule_r13]
 
 
 from ..selftest import M, T, V  # noqa: E402
